@@ -55,9 +55,27 @@ def write(pid, f, results, kres):
             hs = []
             for g in P["kani"]:
                 for h in kani.parse_harnesses(g["unit"]):
-                    if f["obligation"] in h["pair"]:
+                    if f["obligation"] not in h["pair"]:
+                        continue
+                    if h["kind"] == "witness":
+                        # a prepared concrete call sequence (plain #[test] under --cfg vx_replay): run it on the real code
+                        h["crate"] = g.get("crate", "elvis-core")
+                        h["features"] = h["features"] or g.get("features", "")
+                        if doc["replayed_on_real_code"]:
+                            continue
+                        try:
+                            with kani.Scratch([g]) as sc:
+                                failed, out = kani.replay_on_real_code(sc, h, "")
+                        except FileNotFoundError:
+                            failed, out = False, ""
+                        if failed:
+                            doc["counterexample"] = {"check": "witness", "description": "prepared call sequence %s (units/%s/kani.rs) fails on the real code" % (h["harness"], h["unit"]),
+                                                     "hex": "", "replay_output": out[-3000:], "replay_failed_on_real_code": True}
+                            doc["replayed_on_real_code"] = True
+                            doc["harness"] = {k: h[k] for k in ("unit", "harness", "crate", "features")}
+                    else:
                         hs.append(h["harness"])
-            if hs:
+            if hs and not doc["replayed_on_real_code"]:
                 r = kani.run_group(pid, P["kani"], "thorough", only=hs)
                 for kf in r.get("failures", []):
                     paired = kf
